@@ -416,6 +416,15 @@ func c14Inputs(run *core.Run, maxFile int) []c14Input {
 			ins = append(ins, c14Input{mt, f.Name, f.Data})
 		}
 	}
+	// media types with parameters: the inline modes take other paths through the minifiers
+	for i, d := range []string{"color : #ff0000 ; margin : 0px 0px", "background : url( \"a b.png\" ) ; font-weight : bold", ""} {
+		ins = append(ins, c14Input{"text/css;inline=1", fmt.Sprintf("inlinecss#%d", i), []byte(d)})
+	}
+	for i, d := range smallInputs["image/svg+xml"] {
+		if i < 2 {
+			ins = append(ins, c14Input{"image/svg+xml;inline=1", fmt.Sprintf("inlinesvg#%d", i), []byte(d)})
+		}
+	}
 	// the streaming minifier: inputs of several pipe/chunk sizes
 	for i, n := range []int{1, 100, 4096, 3 * 4096, 70000} {
 		ins = append(ins, c14Input{"text/x-copy", fmt.Sprintf("copy#%d", i), bytes.Repeat([]byte("0123456789abcdef"), n/16+1)[:n]})
